@@ -31,6 +31,9 @@ def peel_ident(t):
     return t
 
 
+PADDERS = {"bigint::Integer::to_padded_32_byte_array_le": 32}
+
+
 def padding_rule(ctx, rep, fn, width):
     se = ctx.flat.run(fn)
     if se is None:
@@ -49,18 +52,29 @@ def padding_rule(ctx, rep, fn, width):
     cands = list({c for c in cands})
     good = False
     why = "%d index_mut-based copies" % len(cands)
+    if not cands:
+        # delegation to another (separately checked) padding function on the same value
+        dele = [i for i in se.term_info.values() if i.get("k") == "call" and i["name"] in PADDERS and i["name"] != fn]
+        if len(dele) == 1 and strip(dele[0]["args"][0]) == ("param", 1):
+            used = any(strip(dele[0]["term"]) in set(walk(strip(v))) for (bi, si), (loc, v) in se.assigns.items() if v[0] == "agg") or strip(dele[0]["term"]) in set(walk(strip(se.ret))) or any(strip(dele[0]["term"]) in set(walk(strip(i["term"]))) for i in se.term_info.values() if i.get("k") == "call" and i is not dele[0])
+            good = used and width == PADDERS[dele[0]["name"]]
+            why = "delegates to %s (checked separately)" % dele[0]["name"]
     if len(cands) == 1:
         c = cands[0]
         base = c[3]
         rng = c[1][2][1]
         base_ok = base[0] == "repeat" and base[1][:2] == ("int", 0) and base[2] == width
-        rng_ok = rng[0] == "agg" and rng[2] == "std::ops::Range" and rng[4][0][:2] == ("int", 0)
+        rng_ok = False
+        end_t = None
+        if rng[0] == "agg" and rng[2] == "std::ops::Range" and rng[4][0][:2] == ("int", 0):
+            rng_ok, end_t = True, rng[4][1]
+        elif rng[0] == "agg" and rng[2] == "std::ops::RangeTo":
+            rng_ok, end_t = True, rng[4][0]
         src_len = None
         if rng_ok:
-            e = util.numnorm(rng[4][1])
+            e = util.numnorm(end_t)
             if e[0] == "len":
                 src_len = peel_ident(e[1])
-        # the copy: clone_from_slice / copy_from_slice(dest = that index_mut result, src = V)
         copies = [i for i in se.term_info.values() if i.get("k") == "call" and i["name"].split("::")[-1] in ("clone_from_slice", "copy_from_slice")]
         copy_ok = False
         if len(copies) == 1 and src_len is not None:
